@@ -13,7 +13,7 @@ from asyncio import CancelledError
 from collections import Counter
 
 from .loop import new_loop
-from .model import FlushRec, Injected, InvRec, PoolRec, ReqRec, TaskRec
+from .model import INJECTED_KINDS, FlushRec, Injected, InvRec, PoolRec, ReqRec, TaskRec
 from .ops import OpsMixin
 from .oracles import OracleMixin
 
@@ -89,7 +89,8 @@ class World(OpsMixin, OracleMixin):
             self.viol.append(v)
 
     def new_exc(self, site):
-        e = Injected(site)
+        # user code fails with all sorts of exception classes (TypeError, KeyError, ...): the pool must hand on exactly that object
+        e = INJECTED_KINDS[len(self.excs) % len(INJECTED_KINDS)](site)
         self.excs.add(id(e))
         self._exc_keep = getattr(self, "_exc_keep", [])
         self._exc_keep.append(e)
@@ -144,7 +145,7 @@ class World(OpsMixin, OracleMixin):
         if size is not None:
             kw["pool_size"] = size
         if ps.get("name") is not None:
-            kw["name"] = ps["name"]
+            kw["name"] = ps["name"]  # may be the empty string: such a pool is shown under its index like an unnamed one
         if ps["cls"] == "T":
             obj = P.TaskPool(**kw)
             pr = PoolRec(i, obj, "T", size, ps)
@@ -168,7 +169,7 @@ class World(OpsMixin, OracleMixin):
             pr.obj = obj
             pr.pstr = str(obj)
         pr.size_track = bool(ps.get("size_track"))
-        if ps.get("name") is None:
+        if not ps.get("name"):
             if pr.pstr in _UNNAMED_SEEN:
                 self.violate("C11.pool_names", f"two unnamed pools share the name {pr.pstr!r}")
             _UNNAMED_SEEN.add(pr.pstr)
@@ -488,6 +489,10 @@ class World(OpsMixin, OracleMixin):
                     el = {1: base}  # func(**{1: ..}) -> TypeError
                 else:
                     el = base  # map: the call itself raises (callraise)
+            elif i in req.empties and stars == 1:
+                el = () if i % 2 else []  # func() must be called with no argument at all
+            elif i in req.empties and stars == 2:
+                el = {}
             elif stars == 0:
                 el = base
             elif stars == 1:
